@@ -60,6 +60,7 @@ type features struct {
 	shadowParam  bool // a local in a nested block named like a parameter
 	blankParams  bool // several blank parameters
 	forClauses   bool // for loops with only init+cond or cond+post
+	rejects      bool // now and then a construct the compiler must reject
 	manyConsts   bool // > 256 distinct constants in one function
 }
 
@@ -606,12 +607,32 @@ func (g *gen) ifStmt(indent, depth int) []string {
 	in := g.ind(indent)
 	cond := g.expr(gBool, 2+g.r.Intn(2))
 	head := "if " + cond + " {"
-	if g.feat.ifInit && g.r.Intn(3) == 0 {
-		if v := g.assignable(gInt); v != nil {
-			g.note("if-init")
+	scoped := false
+	if g.feat.ifInit && g.r.Intn(4) == 0 {
+		if v := g.assignable(gInt); v != nil && g.r.Intn(2) == 0 {
+			g.note("if-init-assign")
 			head = "if " + v.name + " = " + g.expr(gInt, 1) + "; " + cond + " {"
+		} else if g.nlocals < 8 {
+			// the variable is in scope in the condition and in every branch of the statement
+			g.note("if-init-define")
+			e := g.expr(gInt, 2)
+			g.scopes = append(g.scopes, nil)
+			scoped = true
+			v := g.newLocal(gInt, false)
+			v.used = true
+			ops := []string{"==", "!=", "<", "<=", ">", ">="}
+			c2 := v.name + " " + ops[g.r.Intn(len(ops))] + " " + g.expr(gInt, 1)
+			if g.r.Intn(2) == 0 {
+				c2 = c2 + " || " + g.operandParen(gBool, 1)
+			}
+			head = "if " + v.name + " := " + e + "; " + c2 + " {"
 		}
 	}
+	defer func() {
+		if scoped {
+			g.scopes = g.scopes[:len(g.scopes)-1]
+		}
+	}()
 	var out []string
 	out = append(out, in+head)
 	thenLines, _ := g.thenBlock(indent+1, depth-1)
@@ -742,11 +763,43 @@ func (g *gen) function(idx int, res gty) *gfunc {
 	for i := 0; i < np; i++ {
 		t := gty(g.r.Intn(3))
 		v := &gvar{name: fmt.Sprintf("p%d", i), ty: t, readonly: true, used: true}
+		if g.feat.blankParams && g.r.Intn(8) == 0 {
+			// a blank parameter: counted on its stack, never read
+			g.note("blank-param")
+			v.name = "_"
+			f.params = append(f.params, *v)
+			ps = append(ps, "_ "+t.String())
+			continue
+		}
 		f.params = append(f.params, *v)
 		g.scopes[0] = append(g.scopes[0], v)
 		ps = append(ps, v.name+" "+t.String())
 	}
 	lines, _ := g.block(1, 3, true, 2+g.r.Intn(5))
+	if g.feat.rejects && g.r.Intn(25) == 0 {
+		// constructs the compiler has to reject (it used to accept and miscompile them)
+		ret := "return"
+		if res != gVoid {
+			ret = "return " + g.zero(res)
+		}
+		var pre []string
+		switch k := g.r.Intn(4); {
+		case k == 0:
+			g.note("reject:compound-assign")
+			pre = []string{"\tvr := 1", "\tvr += 2", "\tif vr == 123456 { " + ret + " }"}
+		case k == 1:
+			g.note("reject:c-style-for")
+			pre = []string{"\tfor vr := 0; vr < 2; vr++ {", "\t}"}
+		case k == 2:
+			g.note("reject:for-init-cond")
+			pre = []string{"\tvr := 0", "\tfor vr = 1; vr < 3; {", "\t\tvr++", "\t}"}
+		case len(f.params) > 0:
+			g.note("reject:param-shadow")
+			p := f.params[0]
+			pre = []string{"\tif true {", "\t\t" + p.name + " := " + g.zero(p.ty), "\t\tif " + p.name + " == " + g.zero(p.ty) + " { " + ret + " }", "\t}"}
+		}
+		lines = append(pre, lines...)
+	}
 	var sb strings.Builder
 	fmt.Fprintf(&sb, "func %s(%s) %s {\n", f.name, strings.Join(ps, ", "), res.String())
 	for _, l := range lines {
